@@ -288,6 +288,25 @@ fn outside_domain(tree: &Tree, op: &Op) -> bool {
     }
 }
 
+/// queries asked on both backends after every mutating call
+fn follow_up_queries() -> Vec<Op> {
+    let mut q = vec![];
+    for p in ["/a", "/a/a", "/a/b", "/b", "/b/a", "/b/b", "/zz"] {
+        let p = s(p);
+        q.extend([Op::Exists(p.clone()), Op::IsFile(p.clone()), Op::IsDir(p.clone()), Op::IsSymlink(p.clone()), Op::ReadAll(p.clone()), Op::ReadlinkAbs(p.clone()), Op::Mode(p.clone())]);
+    }
+    q.push(Op::AllPaths(s("/")));
+    q
+}
+
+/// same domain rule evaluated on the post-state (read off the Memfs twin)
+fn outside_domain_post(mem: &Memfs, sb: &str, q: &Op) -> bool {
+    match abstract_dump(&mem.verif_dump()).and_then(|t| sub_tree(&t, sb)) {
+        Ok(t) => outside_domain(&t, q),
+        Err(_) => true,
+    }
+}
+
 fn owner_value_op(op: &Op) -> bool {
     matches!(op, Op::Uid(..) | Op::Gid(..) | Op::Owner(..))
 }
@@ -306,6 +325,8 @@ pub fn worker(w: &mut WorkerCtx) {
     let ops_rel = alphabet(root_uid);
     let ops: Vec<Op> = ops_rel.iter().map(|o| reroot_op(o, &sbr)).collect();
     let stdfs = Stdfs::new();
+    let follow_up_rel = follow_up_queries();
+    let follow_up: Vec<Op> = follow_up_rel.iter().map(|o| reroot_op(o, &sbr)).collect();
     let hb = Progress::new();
     let hb2 = hb.clone();
     let _wd = spawn_watchdog(hb2, std::time::Duration::from_secs(30), move |_slot, case| {
@@ -421,6 +442,36 @@ pub fn worker(w: &mut WorkerCtx) {
                     w.vio(&format!("C02 {} memfs-malformed [{}]", name, cls), || format!("{}: Memfs state cannot be read as a tree: {}", ctx_txt(), e), case);
                     disk_dirty = true;
                 },
+            }
+            // second step: after a mutating call the two backends must also answer every query alike
+            // (catches state that the tree abstraction does not show, e.g. stale data under a key)
+            let post_in_domain = match (&post_disk, abstract_dump(&mem.verif_dump()).and_then(|t| sub_tree(&t, &sbr))) {
+                // only when both backends ended in the same tree and that tree is inside the statement's
+                // pre-state domain (every link resolves to an existing non-link entry)
+                (Ok(d), Ok(m)) => tree_diff(d, &m, false, euid, egid).is_none() && m.links_resolve(),
+                _ => false,
+            };
+            if ops_rel[oi].is_mutator() && !od.panicked() && !om.panicked() && post_in_domain {
+                for (qi, q) in follow_up.iter().enumerate() {
+                    if outside_domain_post(&mem, &sbr, &follow_up_rel[qi]) {
+                        continue;
+                    }
+                    let _ = std::env::set_current_dir(&sbr);
+                    let qd = apply(&stdfs, q);
+                    let qm = apply(&mem, q);
+                    w.count("follow_up_queries", 1);
+                    let differs = qd.ok != qm.ok || (qd.ok && qd.val != qm.val && !owner_value_op(&follow_up_rel[qi]));
+                    if differs {
+                        w.vio(
+                            &format!("C02 {} then {} differs [{}]", name, follow_up_rel[qi].name(), cls),
+                            || format!("{}: afterwards {} gives {} on Stdfs but {} on Memfs", ctx_txt(), follow_up_rel[qi].render(), unroot(&qd.brief(), &sbr), unroot(&qm.brief(), &sbr)),
+                            case,
+                        );
+                    }
+                }
+                for (code, detail) in crate::models::invariants::check(&mem.verif_dump()) {
+                    w.vio(&format!("C02 {} memfs-invariant {} [{}]", name, code, cls), || format!("{}: Memfs state is malformed afterwards: {}", ctx_txt(), detail), case);
+                }
             }
             if ops_rel[oi].is_mutator() && matches!(ops_rel[oi], Op::Chmod(..) | Op::ChmodB(..) | Op::Chown(..) | Op::ChownB(..) | Op::MkdirM(..) | Op::MkfileM(..) | Op::CopyB(..)) {
                 disk_dirty = true; // modes / owners are not part of Tree equality used above
